@@ -75,7 +75,9 @@ def oracle_case(spec, evs, res, twin_res, secret):
             if r[0] in ("Write", "WriteCmd"):
                 row = by_h.get(r[1])
                 if row is not None and row["kind"] == "KCccd":
-                    accepted = (st["out"] == ["13"]) if r[0] == "Write" else (st["out"] == [] and st["exc"] is None)
+                    # accepted = the server stored the configuration: Write Response sent / no error PDU for a
+                    # command (a 'subscribed' hook raising afterwards does not undo it)
+                    accepted = (st["out"][:1] == ["13"]) if r[0] == "Write" else (st["out"] == [])
                     if str(r[1]) in st["vals"]:
                         cccd_val[r[1]] = bytes.fromhex(st["vals"][str(r[1])])
                     if accepted and len(r[2]) <= 2:
@@ -125,7 +127,7 @@ def run(ctx):
     for w in U.load_corpus(PID):
         cases.append((w["profile"], [U.ev_from_json(e) for e in w["events"]]))
         meta.append({"kind": "corpus", "file": w["file"]})
-    for c in gen_cases(ctx, 2000 if ctx.thorough else 300):
+    for c in gen_cases(ctx, 2000 if ctx.thorough else 180):
         cases.append(c)
         meta.append({"kind": "generated"})
     # twin profiles
